@@ -41,6 +41,7 @@ func init() {
 
 func checkC16(r *core.Run) {
 	c16Argv(r)
+	c07LockSections(r)
 	c16ParseGuard(r)
 	c16PartID(r)
 	c16Divisors(r)
